@@ -26,13 +26,14 @@ META = {
         "C15.T1 writer/reader alphabet: quoted-run characters cannot close the run; the reader unquotes with a strip set disjoint from them; escapes are byte values under the item's codec on both sides",
         "C15.P1 rejection: list items end only at '>' (exact terminator set), unknown type names and a missing '<' raise",
         "C15.T2 SML type names are the reader's dispatch keys; written numbers are in a syntax the reader accepts",
+        "C15.T4 the members of a parsed list are rebuilt by Item.from_value, which returns every created item (no truthiness test of an item that defines a length) and picks the class by the documented type tests (shared with C14.P2)",
         "C15.T3 every number a writer emits is within the reader's bounds: numeric widths read their exact range and write with the family's formatter, character/byte codes 0..0xFF, booleans 0..1",
     ],
     "does_not_decide": ["float text round trip (repr precision)", "semantic equality of parsed values beyond the token/alphabet agreement"],
     "assumptions": ["string.printable is the stdlib constant of this interpreter (read from the interpreter, a platform fact)"],
 }
 
-STDLIB = {"string.printable": string.printable}
+STDLIB = {f"string.{n}": getattr(string, n) for n in ("printable", "ascii_letters", "ascii_lowercase", "ascii_uppercase", "digits", "hexdigits", "octdigits", "punctuation", "whitespace")}
 
 
 def fold_chars(repo, cls, attr):
@@ -511,8 +512,26 @@ def check_reader_bounds(ctx):
         ctx.touch(f)
 
 
+def check_list_members(ctx):
+    """The list reader builds every member through Item.from_value: an empty member (`< A>`, `< L >`) must come back as an
+    item, not be taken for "no item" by a truthiness test (rule shared with C14.P2)."""
+    from . import c14
+
+    sub = type(ctx)(ctx.prop, ctx.tier, ctx.seed, ctx.repo)
+    c14.check_from_value(sub)
+    kept = [o for o in sub.obligations if o["key"] in ("identity-return", "dispatch", "bool-before-int")]
+    ctx.require(len(kept) == 3, "C15.T4: the from_value obligations were not produced")
+    for o in kept:
+        o = dict(o)
+        o["rule"] = "C15.T4"
+        ctx.obligations.append(o)
+    for kind in ("files", "functions"):
+        ctx.analysed[kind] |= sub.analysed[kind]
+
+
 def run(ctx):
     check_reader_bounds(ctx)
+    check_list_members(ctx)
     check_text_writer(ctx)
     check_tokenizer(ctx)
     check_readers(ctx)
